@@ -11,7 +11,7 @@ ValU == {VStr(x, 0), VStr(N(5), 0),
          VHash((f :> x), 0), VHash((f :> x) @@ (x :> N(1)), 0),
          VSet({x}, 0), VSet({x, y}, 0)}
 Dbs0 == UNION {[K -> ValU] : K \in SUBSET Keys}
-KsStates == {[InitServer({1}) EXCEPT !.dbs[0] = d] : d \in Dbs0}
+KsStates == {WithDb0(InitServer({1}), d) : d \in Dbs0}
 
 
 Pats == {W("*"), W("a"), W("?"), W("??"), W("a*"), W("*a"), W("[ab]"), W("[^a]"), W("[a-b]"), W("[b-z]"), W("\\a"), W("\\*"), W("[a"), W(""), W("b*b"), W("*?")}
